@@ -2,7 +2,7 @@
 (B-tier) module stands in for what the generator cannot reach, claimed level and trusted base."""
 from __future__ import annotations
 
-EXPL = lambda j: j.startswith("explainable:")
+EXPL = lambda j: j.startswith("explainable:") or j.startswith("units:")
 ANY = lambda j: True
 
 
